@@ -4,6 +4,7 @@ package main
 // harnesses only use as plumbing. Each is listed in the evidence (stubs_and_intrinsics).
 
 import (
+	"go/token"
 	"golang.org/x/tools/go/ssa"
 )
 
@@ -95,4 +96,71 @@ func init() {
 	}
 	intrinsics["internal/stringslite.Clone"] = clone
 	intrinsics["strings.Clone"] = clone
+}
+
+func init() {
+	// internal/bytealg index helpers are assembly: first index of byte c, or -1 (no forks)
+	indexByte := func(ex *Exec, st *State, bs []*Term, c *Term) *Term {
+		r := ex.goInt(-1)
+		for i := len(bs) - 1; i >= 0; i-- {
+			r = Ite(Eq(bs[i], c), ex.goInt(int64(i)), r)
+		}
+		return r
+	}
+	intrinsics["internal/bytealg.IndexByteString"] = func(ex *Exec, st *State, fn *ssa.Function, args []Value, depth int) []Value {
+		return []Value{indexByte(ex, st, ex.strBytes(args[0].(StrV)), args[1].(*Term))}
+	}
+	intrinsics["internal/bytealg.IndexByte"] = func(ex *Exec, st *State, fn *ssa.Function, args []Value, depth int) []Value {
+		el := ex.sliceElems(st, args[0].(SliceV))
+		bs := make([]*Term, len(el))
+		for i, e := range el {
+			bs[i] = e.(*Term)
+		}
+		return []Value{indexByte(ex, st, bs, args[1].(*Term))}
+	}
+	intrinsics["internal/bytealg.CountString"] = func(ex *Exec, st *State, fn *ssa.Function, args []Value, depth int) []Value {
+		bs := ex.strBytes(args[0].(StrV))
+		c := args[1].(*Term)
+		r := ex.goInt(0)
+		for _, b := range bs {
+			r = ex.arith(token.ADD, r, Ite(Eq(b, c), ex.goInt(1), ex.goInt(0)), intK)
+		}
+		return []Value{r}
+	}
+	// fmt.Sprintf with a concrete format made of literal text and %s verbs applied to strings
+	// is modelled exactly; everything else stays opaque (messages are never the subject).
+	intrinsics["fmt.Sprintf"] = func(ex *Exec, st *State, fn *ssa.Function, args []Value, depth int) []Value {
+		opaque := []Value{StrV{S: "<fmt.Sprintf>"}}
+		f, ok := args[0].(StrV).Concrete()
+		if !ok {
+			return opaque
+		}
+		var rest []Value
+		if sl, ok := args[1].(SliceV); ok {
+			rest = ex.sliceElems(st, sl)
+		}
+		var out []*Term
+		ai := 0
+		for i := 0; i < len(f); i++ {
+			if f[i] != '%' {
+				out = append(out, ex.byteTerm(f[i]))
+				continue
+			}
+			if i+1 >= len(f) || f[i+1] != 's' || ai >= len(rest) {
+				return opaque
+			}
+			iv, ok := rest[ai].(IfaceV)
+			if !ok {
+				return opaque
+			}
+			sv, ok := iv.V.(StrV)
+			if !ok {
+				return opaque
+			}
+			out = append(out, ex.strBytes(sv)...)
+			ai++
+			i++
+		}
+		return []Value{ex.mkStr(out)}
+	}
 }
